@@ -1,7 +1,101 @@
 import PydlVerif.Model.JsonUtil
+import PydlVerif.Model.Scalar
+import PydlVerif.Model.BSpline
 open Lean
 namespace PydlVerif.Driver.C08
+open PydlVerif PydlVerif.BSpline
 
-def handle (_j : Json) : Except String Json := throw "C08: no model operations yet"
+/-- numbers arrive as binary64 bit patterns; they are run either as `Float` or as
+their exact `Rat` value (answers: bit pattern, resp. `[num, den]`) -/
+structure Codec (α : Type) where
+  dec : Json → Except String α
+  enc : α → Json
+  r32 : α → α
+
+def floatCodec : Codec Float := ⟨J.float, J.ofFloat, fun x => x.toFloat32.toFloat⟩
+def ratCodec : Codec Rat := ⟨fun j => do pure (ratOfBits (← J.bits j)), J.ofRat, id⟩
+
+def resJ {β} (f : β → Json) : BSpline.R β → Json
+  | .ok v => Json.mkObj [("ok", f v)]
+  | .error e => Json.mkObj [("err", Json.str e)]
+
+section
+variable {α : Type} [Scalar α] (c : Codec α)
+
+def nums (j : Json) (k : String) : Except String (List α) := do J.list c.dec (← J.fld j k)
+
+def optsOf (j : Json) : Except String (BkOpts α) := do
+  let o ← J.fld j "opts"
+  pure { bkpt := ← J.fOpt (J.list c.dec) o "bkpt"
+         bkptF32 := (← J.fOpt J.bool o "bkptF32").getD false
+         placed := ← J.fOpt (J.list c.dec) o "placed"
+         bkspace := ← J.fOpt c.dec o "bkspace"
+         nbkpts := ← J.fOpt J.int o "nbkpts"
+         everyn := ← J.fOpt J.int o "everyn"
+         bkspread := ← c.dec (← J.fld o "bkspread") }
+
+def bsOf (j : Json) : Except String (BS α) := do
+  pure { nord := ← J.fNat j "nord"
+         breakpoints := (← nums c j "bk").toArray
+         mask := (← J.list J.bool (← J.fld j "mask")).toArray
+         coeff := (← nums c j "coeff").toArray }
+
+def encL (l : List α) : Json := J.ofList c.enc l
+
+def handleNum (op : String) (j : Json) : Except String Json := do
+  match op with
+  | "knots" =>
+    let xs ← nums c j "x"
+    let nord ← J.fNat j "nord"
+    let o ← optsOf c j
+    pure (resJ (encL c) (mkKnots c.r32 xs nord o))
+  | "eval" =>
+    -- everything `value` goes through, on the points in sorted order (perm = argsort)
+    let b ← bsOf c j
+    let xs ← nums c j "x"
+    let perm ← J.fNats j "perm"
+    let xwork := perm.map (fun p => xs.getD p 0)
+    let r : BSpline.R Json := do
+      let indx ← b.intrv xwork
+      let bf := b.bsplvn xwork indx
+      let act ← b.action xwork
+      let (y, m) ← b.value xs perm
+      let (lo, up) : List Int × List Int := match act with
+        | none => ([], [])
+        | some (_, l, u) => (l.toList, u.toList)
+      pure (Json.mkObj [("indx", J.ofList J.ofNat indx), ("bf", match bf with | .ok v => J.ofList (encL c) v | .error e => Json.str e),
+        ("action", Json.bool act.isSome), ("lower", J.ofList J.ofInt lo), ("upper", J.ofList J.ofInt up),
+        ("y", encL c y), ("mask", J.ofList Json.bool m),
+        ("spline", encL c (xs.map (splineAt (knotAt b.gb) (fun i => b.goodcoeff[i]!) b.nord (b.gb.size - b.nord))))])
+    pure (resJ id r)
+  | "intrv" =>
+    -- the public method on points in the order given (sorted or not)
+    let b ← bsOf c j
+    let xs ← nums c j "x"
+    let r : BSpline.R Json := do
+      let indx ← b.intrv xs
+      let bf ← b.bsplvn xs indx
+      pure (Json.mkObj [("indx", J.ofList J.ofNat indx), ("bf", J.ofList (encL c) bf)])
+    pure (resJ id r)
+  | "cdb" =>
+    -- reference recursion: for each x the nord textbook values B_{i-nord+1+m, nord}(x), i = interval of x
+    let t ← nums c j "bk"
+    let nord ← J.fNat j "nord"
+    let xs ← nums c j "x"
+    let ta := t.toArray
+    let n := ta.size - nord
+    pure (J.ofList (fun x =>
+      let i := intrvOf (knotAt ta) nord n x
+      Json.mkObj [("i", J.ofNat i),
+        ("cdb", encL c ((List.range nord).map (fun m => coxDeBoor (knotAt ta) nord (i + 1 - nord + m) x))),
+        ("at", encL c ((List.range nord).map (fun m => coxDeBoorAt (knotAt ta) i nord (i + 1 - nord + m) x))),
+        ("bf", encL c (bsplvn1 (knotAt ta) nord x i))]) xs)
+  | _ => throw s!"C08: unknown op {op}"
+end
+
+def handle (j : Json) : Except String Json := do
+  let op ← J.fStr j "op"
+  let num := (← J.fOpt J.str j "num").getD "float"
+  if num == "rat" then handleNum ratCodec op j else handleNum floatCodec op j
 
 end PydlVerif.Driver.C08
